@@ -40,7 +40,8 @@ func init() {
 			"(6 shapes × every sub-position), targets only the raw re-read reaches; hand-made cross-document shapes (corpus) and a seeded random stream of multi-file universes " +
 			"(element files are also read through references of other kinds); root locations whose directory or file name holds '#', '?' or a literal %XX (7 roots × 3 references × 3 entry points × switch); " +
 			"the library's own readers (ReadFromURIs(ReadFromHTTP, ReadFromFile) in both orders, ReadFromFile alone, DefaultReadFromURI where it stays off the network) on 5 schemes × 3 hosts × 4 paths " +
-			"over a scratch directory and a recording http.RoundTripper. Every case is loaded twice: recording reader directly and behind openapi3.URIMapCache. " +
+			"over a scratch directory and a recording http.RoundTripper; histories in which the switch is turned off between calls and the later call is the exported ResolveRefsIn(doc, location) " +
+			"called directly on the used Loader (that step is judged against the spec only). Every case is loaded twice: recording reader directly and behind openapi3.URIMapCache. " +
 			"Non-trivial = the model reports a branch other than the default (a read, a denial, a cache hit, a re-read, an in-progress skip, …).",
 		Exhaustive: true,
 		Gen:        genC11,
